@@ -22,7 +22,7 @@ INV_PROP = {
     'committed_entry_changed': 'C04', 'log_matching': 'C04', 'leader_commit_old_term': 'C04',
     # C05
     'no_convergence': 'C05',
-    'log_empty': 'C09', 'log_gap': 'C09',
+    'log_empty': 'C09', 'log_gap': 'C09', 'sent_entry_not_in_log': 'C11',
 }
 
 
